@@ -683,6 +683,42 @@ func main() {
 		pkvCase(o, "pkverify.swapped.flipped-signature", swapped, &profile.PublicKey, now, exp, flip(r, valid))
 		pkvCase(o, "pkverify.swapped.other-profile-key", swapped, &small.PublicKey, now, exp, valid)
 	}
+	// a REUSED PublicKey value: after a successful Verify the same variable is loaded with a forgery
+	// (field assignment, and ReadFrom of the forged key's wire form); the verdict must follow the
+	// current contents, whatever the variable went through before
+	for i := 0; i < o.N(12, 4); i++ {
+		reused := user.PublicKey{ExpiresAt: future, PubKey: &profile.PublicKey, Signature: append([]byte{}, valid...)}
+		first := reused.Verify()
+		o.Eval("pkverify.reuse", true, fmt.Sprintf("reuse %d first=%v", i, first))
+		if !first {
+			o.Fail("C18.pkverify.rejects-valid", "reuse scenario: fresh valid key refused")
+		}
+		switch i % 3 {
+		case 0:
+			reused.Signature = flip(r, valid)
+		case 1:
+			reused.PubKey = &small.PublicKey
+		default:
+			forged := user.PublicKey{ExpiresAt: future, PubKey: &small.PublicKey, Signature: r.Bytes(len(valid))}
+			var buf bytes.Buffer
+			if _, err := forged.WriteTo(&buf); err != nil {
+				o.Fail("C18.pkverify.reuse", "cannot serialise forged key: %v", err)
+				continue
+			}
+			if _, err := reused.ReadFrom(&buf); err != nil {
+				o.Fail("C18.pkverify.reuse", "cannot read forged key back: %v", err)
+				continue
+			}
+		}
+		if reused.Verify() {
+			o.Fail("C18.pkverify.accepts", "reuse scenario %d: a PublicKey value that verified once was reloaded with a forgery and Verify still returned true", i%3)
+		}
+		// and back: the valid contents are accepted again
+		reused.PubKey, reused.Signature, reused.ExpiresAt = &profile.PublicKey, append([]byte{}, valid...), future
+		if !reused.Verify() {
+			o.Fail("C18.pkverify.rejects-valid", "reuse scenario %d: valid contents refused after a forgery was refused", i%3)
+		}
+	}
 	user.VerifC18SetPubKey(mojangPub)
 	vsCase(o, "verify.mojang.forger-signature", mojang, profDER, valid)
 }
